@@ -63,6 +63,8 @@ def gen(tape, sc):
     sc.ow_pdf = tape.chance(1, 8, "latex-overwrite")
     sc.ow_png = tape.chance(1, 8, "png-overwrite")
     sc.clock = tape.weighted([(12, "normal"), (1, "tie")], "clock")
+    # members are written inside MapGroup after grouping, or written first and grouped afterwards
+    sc.order = tape.choice(["group-then-write", "write-then-group"], "order")
     sc.step = 1 + tape.draw(3, "tick-step")
     nruns = 1 + tape.draw(4, "nruns")
     sc.runs = []
@@ -93,18 +95,23 @@ def run_grouped(tape, res, World, write_mod, latex_mod, png_mod):
     log = res.log
     fs = w.fs
     judged = sc.clock == "normal"
-    res.say("grouped variant: %d groups of %d plots, Write#1 %s, Write#2 %s, LaTeXToPDF(overwrite=%s), "
+    res.say("grouped variant (%s): %d groups of %d plots, Write#1 %s, Write#2 %s, LaTeXToPDF(overwrite=%s), "
             "PDFToPNG(overwrite=%s), clock %s; %d runs + 2 unchanged runs"
-            % (sc.ngroups, sc.members, sc.w1, sc.w2, sc.ow_pdf, sc.ow_png, sc.clock, len(sc.runs)))
+            % (sc.order, sc.ngroups, sc.members, sc.w1, sc.w2, sc.ow_pdf, sc.ow_png, sc.clock, len(sc.runs)))
     log.ev("cfg", "c19-grouped", sc.ngroups, sc.w1, sc.w2, sc.ow_pdf, sc.ow_png, sc.clock)
     res.probe("grouped-variant")
+    if sc.order == "write-then-group":
+        res.probe("members-written-before-grouping")
     tversion = [0]
     dversion = [[0] * sc.members for _ in range(sc.ngroups)]
     fs.poke(GROUP_TEMPLATE_PATH, group_template_text(0))
     stop = [False]
 
-    def viol(sig, detail):
-        stop[0] = True
+    tainted = set()      # groups whose pdf may be stale as a consequence of the known root cause
+
+    def viol(sig, detail, fatal=True):
+        if fatal:
+            stop[0] = True
         if judged:
             res.viol(sig, detail)
         else:
@@ -196,16 +203,16 @@ def run_grouped(tape, res, World, write_mod, latex_mod, png_mod):
             return {} if kind == "plain" else {kind: True}
         lkw = {"overwrite": True} if sc.ow_pdf else {}
         pkw = {"overwrite": True} if sc.ow_png else {}
-        seq = lena.core.Sequence(
-            lena.flow.GroupBy("grp.name"),
-            lena.flow.group_plots,
-            lena.flow.MapGroup(
-                lena.output.ToCSV(),
-                lena.output.MakeFilename("{{plot.name}}"),
-                Tap("mkf", rec, log, "plot"),
-                lena.output.Write(OUTDIR, verbose=False, **wopts(sc.w1)),
-                Tap("w1", rec, log, "plot"),
-            ),
+        member = [lena.output.ToCSV(),
+                  lena.output.MakeFilename("{{plot.name}}"),
+                  Tap("mkf", rec, log, "plot"),
+                  lena.output.Write(OUTDIR, verbose=False, **wopts(sc.w1)),
+                  Tap("w1", rec, log, "plot")]
+        if sc.order == "group-then-write":
+            head = [lena.flow.GroupBy("grp.name"), lena.flow.group_plots, lena.flow.MapGroup(*member)]
+        else:
+            head = member + [lena.flow.GroupBy("grp.name"), lena.flow.group_plots]
+        seq = lena.core.Sequence(*(head + [
             Tap("grp", rec, log, "grp"),
             lena.output.MakeFilename("combined_{{grp.name}}"),
             lena.output.RenderLaTeX("group.tex", environment=env),
@@ -216,7 +223,7 @@ def run_grouped(tape, res, World, write_mod, latex_mod, png_mod):
             Tap("pdf", rec, log, "grp"),
             lena.output.PDFToPNG(verbose=False, **pkw),
             Tap("png", rec, log, "grp"),
-        )
+        ]))
         values = []
         for g in range(sc.ngroups):
             for m in range(sc.members):
@@ -280,11 +287,15 @@ def run_grouped(tape, res, World, write_mod, latex_mod, png_mod):
                     break
                 cc = changed_since_prev(path)
                 if cc and not truthy(outc):
-                    viol("C19:Write:%s:changed-not-set" % ("new-file" if path not in start_image else "existing-file"),
+                    root = path not in start_image
+                    viol("C19:Write:%s:changed-not-set" % ("new-file" if root else "existing-file"),
                          "run %d, member %s: Write left %s with content different from the previous run, "
-                         "but context.output.changed is %r" % (r, name, path, (outc or {}).get("changed", "<absent>")))
-                    bad = True
-                    break
+                         "but context.output.changed is %r" % (r, name, path, (outc or {}).get("changed", "<absent>")),
+                         fatal=not root)
+                    if not root:
+                        bad = True
+                        break
+                    tainted.add(g)
                 member_changed[(g, m)] = truthy(outc)
             if bad:
                 break
@@ -303,12 +314,14 @@ def run_grouped(tape, res, World, write_mod, latex_mod, png_mod):
             gdata, goutc = t[0]
             any_member = any(member_changed.get((g, m)) for m in range(sc.members))
             if any_member and not truthy(goutc):
-                viol("C19:MapGroup:changed-of-members-not-combined",
+                viol("C19:%s:changed-of-members-not-combined" % (
+                    "MapGroup" if sc.order == "group-then-write" else "group_plots"),
                      "run %d, group %s: a member's output.changed is true but the group's is %r"
                      % (r, gname, (goutc or {}).get("changed", "<absent>")))
                 bad = True
                 break
             prev_changed = truthy(goutc)
+            incoming = goutc
             for stage, label, kind in stages:
                 tt = t_of(stage, gname)
                 if len(tt) != 1:
@@ -344,6 +357,13 @@ def run_grouped(tape, res, World, write_mod, latex_mod, png_mod):
                     fresh = content.startswith(pdf_of(tex, datas) + "@")
                 else:
                     fresh = content == png_of(now[P["pdf"]])
+                if kind == "pdf" and fresh:
+                    tainted.discard(g)
+                told_unchanged = incoming is not None and incoming.get("changed") is False
+                incoming = outc
+                if not fresh and g in tainted and kind in ("pdf", "png") and told_unchanged:
+                    res.probe("stale-as-consequence-of-known-finding")
+                    continue
                 if not fresh:
                     viol("C19:%s:%s:stale-content" % (label, ex),
                          "run %d, group %s: %s on disk is not what the current inputs produce (deleted before "
@@ -352,13 +372,18 @@ def run_grouped(tape, res, World, write_mod, latex_mod, png_mod):
                     break
                 cc = changed_since_prev(path)
                 if cc and not truthy(outc):
-                    viol("C19:%s:%s:changed-not-set" % (label.split("[")[0], "new-file" if path not in start_image
-                                                       else "existing-file"),
+                    sig = "C19:%s:%s:changed-not-set" % (label.split("[")[0], "new-file" if path not in start_image
+                                                         else "existing-file")
+                    root = sig == "C19:Write:new-file:changed-not-set"
+                    viol(sig,
                          "run %d, group %s: %s left %s with content different from the previous run, but "
                          "context.output.changed is %r" % (r, gname, label, path,
-                                                          (outc or {}).get("changed", "<absent>")))
-                    bad = True
-                    break
+                                                          (outc or {}).get("changed", "<absent>")),
+                         fatal=not root)
+                    if not root:
+                        bad = True
+                        break
+                    tainted.add(g)
                 if prev_changed and not truthy(outc):
                     viol("C19:%s:changed-dropped" % label.split("[")[0],
                          "run %d, group %s: output.changed was true before %s and is %r after it"
